@@ -61,3 +61,55 @@ package mobius
 //@   before call (time.Time).Add assert arg1 == 1800000000000
 //@   before call strings.Split assert arg0 == clientConn.RemoteAddr
 //@   before call (hotline.BanMgr).Add assert (reqdata(0, 113)[1] == 1 ==> arg2 != nil) && (reqdata(0, 113)[1] == 2 ==> arg2 == nil) && (reqdata(0, 113)[1] == 1 || reqdata(0, 113)[1] == 2)
+
+// ---------------------------------------------------------------------------------
+// C15: the account table.  Every operation is specified over the WHOLE map (so an operation that
+// leaves a stale key fails), and the file that is written is the marshalled form of exactly the
+// account that the table then holds.
+
+//@ define inv_AM(am) := am != nil && !isnil(am.accounts)
+
+//@ func (am *YAMLAccountManager) Create(account hotline.Account) (err error)
+//@   requires inv_AM(am)
+//@   ensures err == nil ==> has(am.accounts, account.Login) && get(am.accounts, account.Login) == account
+//@   ensures err != nil ==> forall(k, -1000000000000, 1000000000000, has(am.accounts, k) == has_old(am.accounts, k) && get(am.accounts, k) == get_old(am.accounts, k))
+//@   ensures forall(k, -1000000000000, 1000000000000, k != account.Login ==> has(am.accounts, k) == has_old(am.accounts, k) && get(am.accounts, k) == get_old(am.accounts, k))
+//@   ensures err == nil ==> callres("mobius.writeFileAtomic") == nil
+//@   before call mobius.writeFileAtomic assert same(arg1, callres("gopkg.in/yaml.v3.Marshal", 0)) && locked(am, "mu")
+//@   before call os.WriteFile assert false
+//@   guarded_by am.mu: accounts
+
+//@ func writeFileAtomic(path string, data []byte) (err error)
+//@   modifies nothing
+
+//@ func (am *YAMLAccountManager) Update(account hotline.Account, newLogin string) (err error)
+//@   requires inv_AM(am)
+//@   ensures err == nil ==> has(am.accounts, newLogin) && get(am.accounts, newLogin).Login == newLogin
+//@   ensures err == nil ==> get(am.accounts, newLogin).Name == old(account.Name) && get(am.accounts, newLogin).Password == old(account.Password) && get(am.accounts, newLogin).Access == old(account.Access)
+//@   ensures err == nil && old(account.Login) != newLogin ==> !has(am.accounts, old(account.Login))
+//@   ensures forall(k, -1000000000000, 1000000000000, k != newLogin && k != old(account.Login) ==> has(am.accounts, k) == has_old(am.accounts, k) && get(am.accounts, k) == get_old(am.accounts, k))
+//@   ensures err == nil ==> callres("mobius.writeFileAtomic") == nil
+//@   before call gopkg.in/yaml.v3.Marshal assert account.Login == newLogin && locked(am, "mu")
+//@   before call mobius.writeFileAtomic assert same(arg1, callres("gopkg.in/yaml.v3.Marshal", 0)) && locked(am, "mu")
+//@   before call os.WriteFile assert false
+//@   guarded_by am.mu: accounts
+
+//@ func (am *YAMLAccountManager) Delete(login string) (err error)
+//@   requires inv_AM(am)
+//@   ensures err == nil ==> !has(am.accounts, login) && callres("os.Remove") == nil
+//@   ensures forall(k, -1000000000000, 1000000000000, k != login ==> has(am.accounts, k) == has_old(am.accounts, k) && get(am.accounts, k) == get_old(am.accounts, k))
+//@   guarded_by am.mu: accounts
+
+//@ func (am *YAMLAccountManager) Get(login string) (r *hotline.Account)
+//@   requires inv_AM(am)
+//@   ensures has(am.accounts, login) ==> r != nil && *r == get(am.accounts, login) && fresh(r)
+//@   ensures !has(am.accounts, login) ==> r == nil
+//@   guarded_by am.mu: accounts
+
+//@ func HandleDeleteUser(cc *hotline.ClientConn, t *hotline.Transaction) (res []hotline.Transaction)
+//@   before call (hotline.AccountManager).Delete assert arg1 == callres("(*hotline.Field).DecodeObfuscatedString")
+
+// The account an entry of a batched update refers to is named by that entry's own fields: the login
+// field, or the data field (rename) of the same entry -- never by an earlier entry of the batch.
+//@ func HandleUpdateUser(cc *hotline.ClientConn, t *hotline.Transaction) (res []hotline.Transaction)
+//@   before call (hotline.AccountManager).Get assert arg1 == userLogin || callres("hotline.GetField#2") != nil
